@@ -4,6 +4,7 @@
 package qx
 
 import (
+	"math"
 	"sort"
 	"time"
 
@@ -121,7 +122,7 @@ func Symbols(store string) map[string]SymInfo { return symbols[store] }
 
 // ---- value pools ----
 
-var StrPool = []string{"a", "A", "ab", "abc", "b", "", "a b", "é", "5", "2.25", "0.5", "and", "null", `q"t`, `b\n`}
+var StrPool = []string{"a", "A", "ab", "abc", "b", "", "a b", "é", "5", "2.25", "0.5", "0.00005", "and", "null", `q"t`, `b\n`}
 var TagPool = []string{"x", "X", "xy", "y", "5", "2.25", "", "or", "z z"}
 var NumTagPool = []string{"5", "10", "2.25", "-1", "0.5", "7"}
 var IntPool = []int64{0, 1, -1, 5, 7, 10, 2147483647, -2147483648, 9223372036854775807, -9223372036854775807}
@@ -152,6 +153,10 @@ func GenWorld(r *core.Rand, maxThings int, small bool) *World {
 	if small { // shrunk pools force ties and null sort keys (C02)
 		// the empty string is a value, not a null: both occur among the sort keys
 		sp, ip, fp = []string{"a", "", "A", "ab", "b"}, IntPool[:4], []float64{0, 0.5, 0.3, 0.1 + 0.2, 1e-10, -1}
+		if r.Bool() {
+			// half of these worlds also hold the ends of the int64 range: keys further apart than an int64 can say
+			ip = append(append([]int64{}, ip...), math.MaxInt64, math.MinInt64, math.MinInt64+1)
+		}
 	}
 	for _, id := range core.Subset(r, OwnerIds, 0.6) {
 		w.Rows[Owners][id] = &Row{Id: id, V: map[string]any{"name": pickNullable(r, sp, 0.25), "age": pickNullable(r, ip, 0.25), "active": pickNullable(r, []bool{true, false}, 0.25),
@@ -211,6 +216,11 @@ func GenWorld(r *core.Rand, maxThings int, small bool) *World {
 		}
 		if r.P(0.3) {
 			meta["a"] = map[string]any{"b": core.Pick(r, sp)}
+		} else if r.P(0.4) {
+			// two nested maps whose elements have the same names (and a nested element named like a top-level one): each
+			// path is its own element
+			meta["a"] = map[string]any{"b": core.Pick(r, sp), "k": core.Pick(r, sp)}
+			meta["c"] = map[string]any{"b": core.Pick(r, sp)}
 		}
 		v["meta"] = meta
 		w.Rows[Things][id] = &Row{Id: id, V: v}
